@@ -145,15 +145,27 @@ def generate(repo):
         items["commit_pick"] = items["commit_term_ok"] = "miss:%s" % ex
 
     # ---- get_entries_for_follower: entries only together with a prev entry the leader can still name
-    need_prev = "false"
+    # true  = the guarded shape (prev as Option, entries only if prev.is_some());
+    # false = the unguarded shape that existed before the repair (prev via map_or((0, 0), ..), entries unconditionally);
+    # any other shape = translator miss (hand-written default, correspondence check only)
+    need_prev = "true"
     try:
         src = strip_comments(read(repo, "tensor_chain/src/raft.rs"))
         _, body = find_fn(src, "get_entries_for_follower")
         m = re.search(r"let\s+(\w+)\s*=\s*if\s+next_idx\s*<=\s*1\s*\{\s*Some\(\(0,\s*0\)\)\s*\}\s*else\s*\{(.*?)\}\s*;", body, re.S)
+        guarded = False
         if m and re.search(r"\.map\(", m.group(2)) and not re.search(r"map_or\(", m.group(2)):
             pv = m.group(1)
             if re.search(r"let\s+entries\s*=\s*if\s+%s\.is_some\(\)\s*\{(.*?)\}\s*else\s*\{\s*Vec::new\(\)\s*\}\s*;" % pv, body, re.S):
-                need_prev = "true"
+                guarded = True
+        unguarded = bool(re.search(r"\.map_or\(\s*\(0,\s*0\)", body)) and bool(
+            re.search(r"let\s+entries\s*=\s*persistent\s*\.\s*log_index_to_array_index\(\s*next_idx\s*\)", body))
+        if guarded:
+            need_prev = "true"
+        elif unguarded:
+            need_prev = "false"
+        else:
+            raise KeyError("neither the guarded nor the unguarded shape recognised")
         items["entries_need_prev"] = "translated"
     except Exception as ex:
         items["entries_need_prev"] = "miss:%s" % ex
